@@ -226,6 +226,11 @@ def _run_fast(cdir, seed, T, log):
                 cfg["id"] = "fast/%s#%d" % (c["dir"], k)
                 cfg["adv"] = c["adv"]
                 jobs.append(cfg)
+        # the corpus once more, for the oracles only this stage has (the fixed point of C15)
+        for j in copy_corpus(root):
+            j = dict(j)
+            j["id"] = "fast/corpus/" + j["dir"] + "#" + ",".join(j["args"]) + "#" + j.get("pkg", "")
+            jobs.append(j)
         fastcfg = {"Root": root, "Mod": gen.MOD, "Base": os.path.join(root, "fastbase")}
         reqs = [{"job": j, "fmts": ["noop", ""], "facts": True, "oracle": True, "reps": 2 if i % 5 == 0 else 0,
                  "fast": dict(fastcfg, CheckFind=(i % 97 == 0))} for i, j in enumerate(jobs)]
@@ -269,8 +274,41 @@ def read_tree(d):
 
 
 def wf(rec):
+    """The inputs on which the properties are asserted of the real moq: the static clauses the
+    reflected checkers do not see (WF.core) and the model's own output passing the reflected
+    checkers importsOK / namesOK (wf.dyn; exact where the static WF.importsSep / clause 8 of
+    WF.names over-approximate)."""
     m = rec.get("model") or {}
+    if "wf.dyn" in m:
+        return m.get("wf.dyn") == "true"
     return m.get("wf") == "true"
+
+
+def model_says_terminates(rec):
+    """C19 is about every loadable package: it is asserted wherever the model of the pristine
+    naming core predicts a normal return (output or an ordinary error), inside WF or not."""
+    m = rec.get("model")
+    return bool(m) and not (m.get("err") or "").startswith("<")
+
+
+def asserted(rec, diag):
+    """Is `diag` (an oracle diagnostic on this record) asserted?  Diagnostics about the *solo*
+    generation of one argument concern another input: they are asserted where the static WF holds
+    (it is monotone under dropping arguments; the per-input wf.dyn of the joint job is not)."""
+    if not wf(rec):
+        return False
+    m = rec.get("model") or {}
+    if diag.startswith("with the single argument") or diag.startswith("solo generation of"):
+        return m.get("wf") == "true"
+    if "does not reproduce itself" in diag or "own output in the package fails" in diag:
+        # C15's fixed point: the second run harvests the first output's import names; they are the
+        # source's own unless conflict resolution invented some (F-26)
+        return m.get("quals.stable", "true") == "true"
+    if "in the interface is generated as" in diag:
+        # C13 "kept verbatim whenever it collides with nothing": judged against the final import
+        # block, which is what the name met only if no import was re-aliased during the run
+        return m.get("quals.stable", "true") == "true"
+    return True
 
 
 def suspicious(rec):
@@ -294,6 +332,8 @@ def distribution(records):
         m = r.get("model") or {}
         c["jobs"] += 1
         c["wf" if wf(r) else "not_wf"] += 1
+        if m.get("wf") == "true":
+            c["wf.static"] += 1
         for k in ("base", "imports", "names", "generic", "ensure", "dest"):
             if m.get("wf." + k) == "true":
                 c["wf." + k] += 1
